@@ -4,7 +4,7 @@
   case = {"transport": {"kind": "fake", "tbl": [normal, unser, big]}            (wampdrv fake ITransport, scripted send)
                      | {"kind": "ws"|"rs", "role": "server"|"client", "ser": "json"|"msgpack"|"cbor", "limit": 512},
           "ecls": [[cls, uri], ...], "ops": [op, ...]}
-  op   = ["reg", reg, wants_details, is_coro (, check_types, "ok"|"short"|"ill", signature kind)] | ["unreg", reg] | ["inv", req, reg, payload, caller, rp, beh]
+  op   = ["reg", reg, wants_details, is_coro (, check_types, "ok"|"short"|"ill", signature kind)] | ["unreg", reg] | ["inv", req, reg, payload, [caller|null, caller_authid|null, procedure|null (, timeout|null)], rp = null|false|true, beh]
        | ["int", req] | ["res", k, result] | ["prog", k, payload] | ["lose"] | ["turn"]
   payload = ["val", id, unser, big (, target octets of the serialized YIELD/ERROR; real transports)] | ["none"] | ["empty"];  retval = ["plain", p] | ["cr", p]
   exn = ["app", u, p] | ["other", cls, p];  result = ["ok", retval] | ["err", exn]
@@ -12,7 +12,7 @@
   sres (table entries) = "sent" | "ser" | "exc" | ["other", "TypeError" | "ValueError" | ...]
 
 Result per case: {"log": [...], "left": [request ids still in session._invocations]} with log entries
-  ["acc", k, req, reg, payload, caller, rp, wants]      INVOCATION entered (onMessage returned normally)
+  ["acc", k, req, reg, payload, [caller, authid, procedure] as sent (null = absent), rp (null = absent), wants]      INVOCATION entered (onMessage returned normally)
   ["called", k, req, reg, payload, null | [caller, progress_is_callable]]   what the endpoint body saw
   ["sent", ["yield", req, single, payload, progress] | ["error", req, uri, payload]]   decoded from what the transport
                                                          wrote (real transports: from the octets on the lower transport)
@@ -164,6 +164,16 @@ def dec_wire(m):
             if single: p = ["bad", "single in error"]
         return ["sent", ["error", m[2], u, p]]
     return None
+
+
+def dec_details(det):
+    """CallDetails as the endpoint sees them -> [caller, caller_authid token, procedure token]"""
+    aid = getattr(det, "caller_authid", None)
+    if aid is not None:
+        aid = 0 if aid == "" else (int(aid[1:]) if re.fullmatch(r"a\d+", aid) else -1)
+    prc = getattr(det, "procedure", None)
+    m = re.fullmatch(r"com\.[pq](\d+)", prc or "")
+    return [getattr(det, "caller", None), aid, int(m.group(1)) if m else -1]
 
 
 XNAMES = {"ProtocolError", "KeyError", "AttributeError", "TypeError", "SerializationError", "PayloadExceededError",
@@ -433,7 +443,7 @@ def run_case(case):
         k = C["k_of_arg"].get(argid, -1)
         info = C["info"].get(argid, {})
         L.append(["called", k, info.get("req", -1), reg, p if not single else ["bad", "single"],
-                  None if det is None else [getattr(det, "caller", None), callable(getattr(det, "progress", None))]])
+                  None if det is None else [dec_details(det), callable(getattr(det, "progress", None))]])
         C["det"][k] = det
         C["req_of_k"][k] = info.get("req", 0)
         beh = C["by_arg"].get(argid, {"pre": [], "fin": ["ret", ["plain", ["none"]]]})
@@ -531,11 +541,18 @@ def run_case(case):
             C["info"][argid] = {"req": req}
             pos = len(L)
             n_raised = sum(1 for e in L if e[:2] == ["raised", "msg"])
-            details = {"caller": caller}
-            if rp: details["receive_progress"] = True
+            # INVOCATION.Details: every option absent unless given; receive_progress tri-state (None / False / True)
+            if isinstance(caller, int): caller = [caller, None, None]
+            cal, aid, prc = caller[:3]
+            details = {}
+            if cal is not None: details["caller"] = cal
+            if aid is not None: details["caller_authid"] = "" if aid == 0 else "a%d" % aid
+            if prc is not None: details["procedure"] = "com.q%d" % prc
+            if len(caller) > 3 and caller[3] is not None: details["timeout"] = caller[3]
+            if rp is not None: details["receive_progress"] = bool(rp)
             guarded(link.deliver, link.prepare([68, req, reg, details, tok(p), {"kw": p[1]}]))
             if sum(1 for e in L if e[:2] == ["raised", "msg"]) == n_raised:
-                L.insert(pos, ["acc", k, req, reg, p, caller, bool(rp), wants])
+                L.insert(pos, ["acc", k, req, reg, p, [cal, aid, prc], rp, wants])
                 C["nextk"] = k + 1
             else:
                 C["k_of_arg"].pop(argid, None)
